@@ -1,3 +1,149 @@
+/-
+  C07 model driver: replays the harness trace through the CS model (lock-step DIFF) and evaluates
+  the C07 specification predicates on the IMPLEMENTATION's outputs (SPEC).
+
+  ops:   new K | ins <name> <fresh-ms|-> <wirehex> | find <name> <cbp> <mbf> | cap K | adv <ms> | probe
+  outs:  ok    | <CsSize>                          | none / <name> <wirehex>  | ok    | ok       | n1,n2,.. / -
+-/
 import NdnVerif.Driver.Common
--- stub: replaced by the C07 model driver
-def main : IO Unit := IO.println "DONE lines=0 histories=0 diffs=0 specs=0 skipped=0"
+import NdnVerif.C07.Spec
+open Ndn Ndn.Driver Ndn.C07
+
+structure DSt where
+  m : St := {}
+  -- specification state: built from the ops and the implementation's outputs only
+  hist : List Ev := []
+  now : Nat := 0
+  cap0 : Nat := 0
+  evicted : Bool := false
+
+def msNs (ms : Nat) : Nat := ms * 1000000
+
+def sortStrs (l : List String) : List String := l.mergeSort (fun a b => decide (a ≤ b))
+
+def namesText (l : List Name) : String :=
+  if l.isEmpty then "-" else ",".intercalate (sortStrs (l.map Name.toText))
+
+def ansText : Ans → String
+  | none => "none"
+  | some (n, w) => s!"{n.toText} {hexOrDash w}"
+
+def parseAns (got : String) : Option Ans :=
+  if got == "none" then some none
+  else match got.splitOn " " with
+    | [n, w] => do
+      let n ← Name.ofText n
+      let w ← bytesOfHex w
+      pure (some (n, w))
+    | _ => none
+
+def bad (s : DSt) : StepResult DSt := { st := s, expected := some "bad-op" }
+
+def stepC07 (s : DSt) (op : String) (got : String) : StepResult DSt :=
+  let crash : List SpecFail :=
+    if isCrash got then [⟨"no-panic", (op.splitOn " ").headD "", s!"the Content Store crashed: {got}"⟩] else []
+  match op.splitOn " " with
+  | ["new", k] =>
+    match k.toNat? with
+    | some k => { st := { m := init k, cap0 := k }, expected := some "ok", spec := crash }
+    | none => bad s
+  | ["ins", n, f, w] =>
+    match Name.ofText n, (if f == "-" then some 0 else f.toNat?), bytesOfHex w with
+    | some n, some f, some w =>
+      let fresh := msNs f
+      let wasCached := s.m.cs.has n
+      let m' := insertData (fun _ => false) s.m n w fresh
+      -- spec side
+      let r := refOf s.cap0 s.hist
+      let isNew := !memb n r.order
+      let hist' := Ev.ins n w fresh s.now :: s.hist
+      let sz := got.toNat?
+      let capFail : List SpecFail :=
+        match sz with
+        | some z => if isNew && decide (z > r.cap) then
+            [⟨"capacity", s!"cap={r.cap}", s!"after inserting the new name {n.toText} the store reports {z} entries, capacity is {r.cap}"⟩] else []
+        | none => []
+      let ev := m'.cs.length < s.m.cs.length + 1 && !wasCached
+      { st := { s with m := m', hist := hist', evicted := s.evicted || ev },
+        expected := some (toString m'.nCs), spec := crash ++ capFail,
+        cov := [if wasCached then "ins-refresh" else if ev then "ins-evict" else "ins-new"] ++
+               (if !wasCached && s.m.cap == 0 then ["ins-cap0"] else []),
+        nontrivial := s.evicted || ev }
+    | _, _, _ => bad s
+  | ["find", n, c, mb] =>
+    match Name.ofText n with
+    | some n =>
+      let cbp := c == "1"
+      let mbf := mb == "1"
+      let i : Interest := ⟨n, cbp, mbf⟩
+      -- model
+      let (m', ans) := findData id s.m n cbp mbf
+      let allowed : List String :=
+        if cbp then
+          if nodeAt s.m n then
+            let l := walkAll s.m mbf (fuel s.m) n
+            if l.isEmpty then ["none"] else l.map (fun q => ansText (ansOf s.m (some q)))
+          else ["none"]
+        else [ansText ans]
+      let expected := if allowed.contains got then got else "|".intercalate allowed
+      -- spec on the implementation's answer
+      let (hist', fails) : List Ev × List SpecFail :=
+        match parseAns got with
+        | some a =>
+          let f1 : List SpecFail :=
+            if csAnswerOk s.hist s.now i a then []
+            else
+              let key := match a with
+                | some (q, b) =>
+                  match lastInsert s.hist q with
+                  | none => "never-inserted"
+                  | some (w, f, t0) =>
+                    if !nameMatches i q then "name"
+                    else if w != b then "bytes"
+                    else if mbf && !(decide (s.now < t0 + f)) then "stale" else "other"
+                | none => "other"
+              [⟨"find-sound", key, s!"lookup {n.toText} cbp={c} mbf={mb} at t={s.now} answered {got}"⟩]
+          let r := refOf s.cap0 s.hist
+          let f2 : List SpecFail :=
+            match a with
+            | none =>
+              if !cbp && memb n r.order then
+                match lastInsert s.hist n with
+                | some (_, f, t0) =>
+                  if !mbf || decide (s.now < t0 + f) then
+                    [⟨"exact-complete", if mbf then "fresh" else "any", s!"{n.toText} is cached, unevicted and fresh at t={s.now} but the exact lookup (mbf={mb}) found nothing"⟩]
+                  else []
+                | none => []
+              else []
+            | some _ => []
+          let h' := match a with
+            | some (q, _) => if !cbp && q == n then Ev.hit n :: s.hist else s.hist
+            | none => s.hist
+          (h', f1 ++ f2)
+        | none => (s.hist, if isCrash got then [] else [⟨"find-sound", "garbled", s!"unparsable answer {got}"⟩])
+      { st := { s with m := m', hist := hist' }, expected := some expected, spec := crash ++ fails,
+        cov := [if cbp then (if ans.isSome then "find-prefix-hit" else "find-prefix-miss")
+                else (if ans.isSome then "find-exact-hit" else "find-exact-miss")] ++
+               (if mbf && ans.isNone && (if cbp then false else s.m.cs.has n) then ["find-stale"] else []) ++
+               (if cbp && allowed.length > 1 then ["find-prefix-choice"] else []) }
+    | none => bad s
+  | ["cap", k] =>
+    match k.toNat? with
+    | some k => { st := { s with m := setCap s.m k, hist := Ev.cap k :: s.hist }, expected := some "ok",
+                  spec := crash, cov := [if k < s.m.cs.length then "cap-lower" else "cap-other"] }
+    | none => bad s
+  | ["adv", d] =>
+    match d.toNat? with
+    | some d => { st := { s with m := advance s.m (msNs d), now := s.now + msNs d }, expected := some "ok", spec := crash }
+    | none => bad s
+  | ["probe"] =>
+    let r := refOf s.cap0 s.hist
+    let want := namesText r.order
+    let fails : List SpecFail :=
+      if isCrash got then [] else
+      if got == want then [] else
+        [⟨"evicts-lru", s!"cap={r.cap}", s!"cached names are {got}; the least-recently-used rule over the history leaves {want}"⟩]
+    { st := s, expected := some (namesText s.m.cs.keys), spec := crash ++ fails, cov := ["probe"] }
+  | _ => bad s
+
+def main : IO Unit := Ndn.Driver.run ({} : DSt) stepC07
